@@ -146,7 +146,24 @@ func (ev *Evaluator) evalCall(n *jast.Call, in Value, env *Env) (Value, *Err) {
 		if !ok {
 			return Undef, evalErr(ErrNonCallablePartial)
 		}
-		return &Func{Kind: "partial", Name: f.Name + "_partial", Fn: f, Args: n.Args, Ctx: in, Env: env}, nil
+		pf := &Func{Kind: "partial", Name: f.Name + "_partial", Fn: f, Args: n.Args, Ctx: in, Env: env}
+		if !ev.PartialArgsAtCall {
+			// f(?, x) is a function of its placeholders: the given arguments are
+			// evaluated here, where the partial application is written
+			pf.Bound = make([]Value, len(n.Args))
+			for i, a := range n.Args {
+				if _, ok := a.(*jast.Placeholder); ok {
+					continue
+				}
+				v, err := ev.eval(a, in, env)
+				if err != nil {
+					return Undef, err
+				}
+				pf.Bound[i] = v
+			}
+		}
+		ev.PartialsMade++
+		return pf, nil
 	}
 	if !ok {
 		return Undef, evalErr(ErrNonCallable)
@@ -189,6 +206,10 @@ func (ev *Evaluator) Call(f *Func, argv []Value, ctx Value) (Value, *Err) {
 				} else {
 					args[i] = Undef
 				}
+				continue
+			}
+			if f.Bound != nil {
+				args[i] = f.Bound[i]
 				continue
 			}
 			v, err := ev.eval(a, f.Ctx, f.Env)
